@@ -604,11 +604,16 @@ func AppendFunction(name string) ZlispUserFunction {
 		case *SexpArray:
 			switch name {
 			case "append":
-				return &SexpArray{Val: append(t.Val, args[1]), Env: env, Typ: t.Typ}, nil
+				// copy, so that the result never shares storage with t
+				val := make([]Sexp, len(t.Val), len(t.Val)+1)
+				copy(val, t.Val)
+				return &SexpArray{Val: append(val, args[1]), Env: env, Typ: t.Typ}, nil
 			case "appendslice":
 				switch sl := args[1].(type) {
 				case *SexpArray:
-					return &SexpArray{Val: append(t.Val, sl.Val...), Env: env, Typ: t.Typ}, nil
+					val := make([]Sexp, len(t.Val), len(t.Val)+len(sl.Val))
+					copy(val, t.Val)
+					return &SexpArray{Val: append(val, sl.Val...), Env: env, Typ: t.Typ}, nil
 				default:
 					return SexpNull, fmt.Errorf("Second argument of appendslice must be slice")
 				}
